@@ -78,16 +78,88 @@ struct Rng {
 };
 
 // ---------------------------------------------------------------------------------------------
-// executors: index 0 = inplace, 1.. = pools
+// A user-derived executor that sometimes refuses the closure.  BasicExecutor contract: `invoke` returns 0
+// when the function was taken (and will be called), any other code - positive or negative - when it was
+// neither moved nor called; the library must then resume the coroutine in place.  Accepted closures run
+// inline under this executor's RunnerScope.  The first closures (the starts of the coroutines, while
+// `starting` is set) are always accepted, because Executor::submit destroys a task whose start is refused.
+static thread_local bool t_rejected = false;
+static thread_local bool t_starting = false;
+struct FaultyExecutor : public Executor {
+  uint64_t pattern = 0;
+  std::atomic<int> calls {0};
+  int invoke(MoveOnlyFunction<void(void)>&& function) noexcept override {
+    int k = calls.fetch_add(1, std::memory_order_relaxed);
+    int code = 0;
+    bool starting = t_starting;
+    t_starting = false;
+    if (!starting) {
+      switch ((pattern >> (2 * (k % 24))) & 3) {
+        case 1: code = 1; break;
+        case 2: code = 11; break;    // EAGAIN
+        case 3: code = -1; break;
+        default: code = 0;
+      }
+    }
+    if (code != 0) {
+      vrt_event("xreject e9 %d", code);
+      t_rejected = true;
+      return code;
+    }
+    RunnerScope scope {*this};
+    function();
+    return 0;
+  }
+};
+
+// executors: index 0 = inplace, 1.. = pools, 9 = the fault-injecting executor
 struct Execs {
   std::vector<std::unique_ptr<ThreadPoolExecutor>> pools;
+  FaultyExecutor faulty;
   Executor& at(int e) {
     if (e == 0) return InplaceExecutor::instance();
+    if (e == 9) return faulty;
     return *pools[e - 1];
+  }
+  // submit a new coroutine: the closure that starts it is never refused
+  template <typename T>
+  void submit(int e, T&& task) {
+    t_starting = true;
+    at(e).submit(std::forward<T>(task));
+    t_starting = false;
+  }
+  // a third of the runs use the fault-injecting executor; the choice leaves the random program of a seed
+  // as it is
+  bool faults(uint64_t seed) {
+    if (seed % 3 != 0) return false;
+    Rng f(seed ^ 0xFA17FA17ull);
+    faulty.pattern = f.next();
+    return true;
+  }
+  // does the continuation run where it must?  In place (anywhere) is right exactly when the bound
+  // executor has just refused the closure on this thread; a coroutine that was resumed in place stays
+  // there (same thread) until it suspends again.
+  struct Place {
+    bool inplace = false;
+    pthread_t th {};
+  };
+  bool placed_ok(int bound, Place& p) {
+    int e = current();
+    bool rej = t_rejected;
+    t_rejected = false;
+    if (bound == 9 && rej) {
+      p.inplace = true;
+      p.th = pthread_self();
+      return true;
+    }
+    if (p.inplace && pthread_equal(p.th, pthread_self()) && e != bound) return true;   // continues inline
+    p.inplace = false;
+    return e == bound;
   }
   int index_of(BasicExecutor* b) {
     if (b == nullptr) return -1;
     if (b == static_cast<BasicExecutor*>(&InplaceExecutor::instance())) return 0;
+    if (b == static_cast<BasicExecutor*>(&faulty)) return 9;
     for (size_t i = 0; i < pools.size(); ++i)
       if (b == static_cast<BasicExecutor*>(pools[i].get())) return (int)i + 1;
     return 99;
@@ -177,6 +249,7 @@ struct Wait {
 };
 struct FrameSt {
   int exec = 0;
+  Execs::Place place;
   std::vector<Wait> waits;
   void* addr = nullptr;              // coroutine frame address (handle.address())
   volatile int state = F_NEW;
@@ -266,7 +339,7 @@ static coroutine::Task<> frame_body(World* w, int h) {
     me.resumes = me.resumes + 1;
     int e = w->ex.current();
     vrt_event("resumed %d e%d", h, e);
-    if (e != me.exec) vrt_event("ORACLE wrong-executor frame %d resumed on e%d, bound to e%d", h, e, me.exec);
+    if (!w->ex.placed_ok(me.exec, me.place)) vrt_event("ORACLE wrong-executor frame %d resumed on e%d, bound to e%d", h, e, me.exec);
     int still = raw_pending_wait_of(w, me.addr);
     if (still >= 0) vrt_event("ORACLE spurious-resume frame %d runs while its wait (slot %d) is still linked and not taken", h, still);
     if (!w->has_set && seen != wt.v) {
@@ -351,7 +424,7 @@ static void start_frame(World* w, int h) {
   auto task = frame_body(w, h);
   w->fr[h]->addr = task.handle().address();
   vrt_event("spawn %d e%d", h, w->fr[h]->exec);
-  w->ex.at(w->fr[h]->exec).submit(std::move(task));
+  w->ex.submit(w->fr[h]->exec, std::move(task));
 }
 
 static bool all_done(World* w) {
@@ -405,6 +478,13 @@ static void run_futex(uint64_t seed, const char* corpus) {
   int npools = 0, minted = K;
   if (corpus == nullptr) {
     gen_program(w, rng, &npools, &minted);
+    if (w->ex.faults(seed)) {
+      Rng f(seed ^ 0xE9E9ull);
+      bool any = false;
+      for (auto& fr : w->fr)
+        if (f.below(2) == 0) fr->exec = 9, any = true;
+      if (!any) w->fr[0]->exec = 9;
+    }
   } else if (!strcmp(corpus, "wake_all_reuse")) {
     // two waiters on futex 0; wake_all from a client while another coroutine keeps waiting again:
     // the slot wake_all has just finished is re-emplaced while wake_all still walks its list
@@ -593,6 +673,7 @@ NOTSAN static int raw_callocated() {
 }
 
 struct CInst {
+  Execs::Place place;
   int exec = 0;        // executor of the awaiting coroutine
   int exec2 = 0;       // executor of the inner task
   bool gated = true;   // inner waits on its gate before finishing
@@ -655,7 +736,7 @@ static coroutine::Task<> c_outer(CWorld* w, int i) {
   int e = w->ex.current();
   if (result) vrt_event("cresumed %d e%d value %d", i, e, *result);
   else vrt_event("cresumed %d e%d empty", i, e);
-  if (e != me.exec) vrt_event("ORACLE wrong-executor cancellable awaiter %d resumed on e%d, bound to e%d", i, e, me.exec);
+  if (!w->ex.placed_ok(me.exec, me.place)) vrt_event("ORACLE wrong-executor cancellable awaiter %d resumed on e%d, bound to e%d", i, e, me.exec);
   if (result && *result != 100 + i) vrt_event("ORACLE wrong-value awaiter %d got %d", i, *result);
   me.state = F_DONE;
   vrt_event("cdone %d", i);
@@ -684,6 +765,13 @@ static void run_cancel(uint64_t seed) {
     c.sync_cancel = c.exec != 0 && rng.below(6) == 0;
     w->gate.emplace_back(new CoFutex);
   }
+  if (w->ex.faults(seed)) {
+    Rng f(seed ^ 0xE9E9ull);
+    bool any = false;
+    for (auto& c : w->inst)
+      if (f.below(2) == 0) c->exec = 9, any = true;
+    if (!any) w->inst[0]->exec = 9;
+  }
   int nclients = 1 + (int)rng.below(3);
   for (int c = 0; c < nclients; ++c) {
     std::vector<COp> ops;
@@ -707,7 +795,7 @@ static void run_cancel(uint64_t seed) {
   int base = raw_callocated();
   for (int i = 0; i < n; ++i) {
     vrt_event("cspawn %d e%d", i, w->inst[i]->exec);
-    w->ex.at(w->inst[i]->exec).submit(c_outer(w, i));
+    w->ex.submit(w->inst[i]->exec, c_outer(w, i));
   }
   {
     std::vector<std::thread> ts;
@@ -782,6 +870,7 @@ static void run_cancel(uint64_t seed) {
 // Future whose value is set by a client thread at an arbitrary moment (completion racing with the
 // registration of the awaiter).  L2 events + oracle.
 struct AInst {
+  Execs::Place place, place2;
   int exec = 0;
   int kind = 0;        // 0: await task, 1: await future, 2: await task that awaits a future
   int exec2 = -1;      // executor of the inner task, -1 = not set (inherits)
@@ -801,14 +890,14 @@ static coroutine::Task<int> a_inner(AWorld* w, int i) {
   int e = w->ex.current();
   vrt_event("istart %d e%d", i, e);
   int want = me.exec2 >= 0 ? me.exec2 : me.exec;
-  if (e != want) vrt_event("ORACLE wrong-executor inner task %d runs on e%d, bound to e%d", i, e, want);
+  if (!w->ex.placed_ok(want, me.place2)) vrt_event("ORACLE wrong-executor inner task %d runs on e%d, bound to e%d", i, e, want);
   int v = 0;
   if (me.kind == 2) {
     vrt_event("iawait %d future", i);
     v = co_await me.future;
     int e2 = w->ex.current();
     vrt_event("iresumed %d e%d %d", i, e2, v);
-    if (e2 != want) vrt_event("ORACLE wrong-executor inner task %d resumed on e%d, bound to e%d", i, e2, want);
+    if (!w->ex.placed_ok(want, me.place2)) vrt_event("ORACLE wrong-executor inner task %d resumed on e%d, bound to e%d", i, e2, want);
   }
   vrt_event("ifinish %d", i);
   co_return 1000 + i + v;
@@ -836,7 +925,7 @@ static coroutine::Task<> a_outer(AWorld* w, int i) {
   me.resumes = me.resumes + 1;
   int e = w->ex.current();
   vrt_event("aresumed %d e%d %d", i, e, got);
-  if (e != me.exec) vrt_event("ORACLE wrong-executor awaiter %d resumed on e%d, bound to e%d", i, e, me.exec);
+  if (!w->ex.placed_ok(me.exec, me.place)) vrt_event("ORACLE wrong-executor awaiter %d resumed on e%d, bound to e%d", i, e, me.exec);
   if (got != expect) vrt_event("ORACLE wrong-value awaiter %d got %d expected %d", i, got, expect);
   me.state = F_DONE;
   vrt_event("adone %d", i);
@@ -858,11 +947,22 @@ static void run_await(uint64_t seed) {
     a.future = a.promise.get_future();
     if (a.kind != 0) sets.push_back(i);
   }
+  if (w->ex.faults(seed)) {
+    Rng f(seed ^ 0xE9E9ull);
+    bool any = false;
+    for (auto& a : w->inst) {
+      if (f.below(2) == 0) a->exec = 9, any = true;
+      if (f.below(3) == 0) a->exec2 = 9, any = true;
+    }
+    if (!any) w->inst[0]->exec = 9;
+  }
   int nclients = 1 + (int)rng.below(2);
   w->clients.resize(nclients);
   for (int i : sets) w->clients[rng.below(nclients)].push_back(i);
   bool early = rng.below(3) == 0;   // set the futures before the coroutines start
   vrt_unname_all();
+  // ready() / on_finish / set_value meet at the callback head of the future: its accesses are trace lines
+  for (int i = 0; i < n; ++i) vrt_namef(&w->inst[i]->promise._context->_head, 8, "qh%d", i);
   vrt_begin(seed);
   printf("RUN %lu mode=await awaiters=%d pools=%d clients=%d\n", (unsigned long)seed, n, npools, nclients);
   w->ex.start(npools, rng);
@@ -891,7 +991,7 @@ static void run_await(uint64_t seed) {
     }
     for (int i = 0; i < n; ++i) {
       vrt_event("aspawn %d e%d k%d x%d", i, w->inst[i]->exec, w->inst[i]->kind, w->inst[i]->exec2);
-      w->ex.at(w->inst[i]->exec).submit(a_outer(w, i));
+      w->ex.submit(w->inst[i]->exec, a_outer(w, i));
     }
     for (auto& t : ts) t.join();
   }
